@@ -62,6 +62,12 @@ def concretise(inv, a, files, rng, bins):
         argv += ["-p", "XX-" + sem]
     elif pc == "badsem":
         argv += ["-p", "SE-XX"]
+    elif pc == "trailing":
+        argv += ["-p", "%s-%s-%s" % (rng.choice(["SE", "DC", "DS"]), sem, rng.choice(["foo", "1", "CO", sem]))]
+    elif pc == "trailinghyphen":
+        argv += ["-p", "%s-%s-" % (rng.choice(["SE", "se"]), sem)]
+    elif pc == "padded":
+        argv += ["-p", rng.choice(["SE-%s ", " SE-%s", "SE -%s", "SE- %s"]) % sem]
     args = []
     ac = inv["argc"]
     lab = (lambda i: "a%d" % i) if inv["fmt"] == "apx" else str
